@@ -202,6 +202,19 @@ func (env *SpecEnv) modTargets(exprs []*SExpr) (out []modTarget) {
 				if path == nil {
 					g := vc.eng.ghostField(bt, m.Name)
 					if g == nil {
+						// ghost field promoted through a struct embedded by value
+						for i := 0; i < st.NumFields(); i++ {
+							f := st.Field(i)
+							if _, ok := isStruct(f.Type()); !ok || !f.Embedded() {
+								continue
+							}
+							if pg := vc.eng.ghostField(f.Type(), m.Name); pg != nil {
+								gty := env.resolveTypeIn(pg)
+								key, base := vc.ghostLoc(p.extend(i), f.Type(), m.Name)
+								out = append(out, modTarget{key: key, sort: SArr(SRef, ghostSort(gty)), idx: base})
+								return
+							}
+						}
 						env.fail("no field %s", m.Name)
 					}
 					gty := env.resolveTypeIn(g)
